@@ -602,12 +602,12 @@ def r3_differences(ctx):
             continue
         inva = _inv_a(me, unc)
         nl = me.attrs.get("nl_dct")
-        ok = isinstance(nl, dict) and list(nl) == t.keys and me.attrs.get("nonlin_terms") == 2 and not t.calls
+        ok = isinstance(nl, dict) and set(nl) == set(t.keys) and me.attrs.get("nonlin_terms") == 2 and not t.calls
         if ok:
             for k_, key in enumerate(t.keys):
                 e = nl[key]
                 ok = ok and isinstance(e, (tuple, list)) and len(e) == 3 and e[0] is t.funcs[k_] and _eq(e[1], inva(t.T[k_])) and \
-                    (e[2] is t.kwargs[1] if k_ == 1 else e[2] == {})
+                    isinstance(e[2], dict) and e[2] == t.kwargs[k_]
         ctx.check(ok, f"{tag}: every term keeps its function and optional arguments, its transform is pre-multiplied by inv(A) like every other "
                       "right-hand-side term, and nonlin_terms counts the terms", dn, None if ok else _show(nl))
 
